@@ -8,9 +8,10 @@ try:
     na_cfg = {e["property_id"]: e["reason"] for e in json.load(open(os.path.join(root, "not_applicable.json")))}
 except FileNotFoundError:
     na_cfg = {}
+ready = set(json.load(open(os.path.join(root, "ready.json"))))  # properties whose check the coordinator has accepted
 for pid in props:
     p = os.path.join(root, "props", pid + ".json")
-    if pid in na_cfg or not os.path.exists(p):
+    if pid in na_cfg or not os.path.exists(p) or pid not in ready:
         na.append({"property_id": pid, "reason": na_cfg.get(pid, "check not built yet (work in progress)")})
         continue
     cfg = json.load(open(p))
